@@ -38,6 +38,7 @@ type bound struct {
 	axis  int
 	loop  string
 	idx   string // index key of the element read
+	list  string // the list the element is read from
 }
 
 // boundsIn classifies the loop-carried symbols of a (bounding-box accumulators over the input list).
@@ -123,7 +124,7 @@ func (pp *pipe) boundsIn(a c17.Scalar) ([]bound, string) {
 			if decided && (b.upper != upper || b.axis != ax) {
 				return nil, "the accumulator " + d.Name + " is updated in two different ways"
 			}
-			b.upper, b.axis, b.idx, decided = upper, ax, idx, true
+			b.upper, b.axis, b.idx, b.list, decided = upper, ax, idx, sl, true
 		}
 		if !decided {
 			return nil, "the accumulator " + d.Name + " is never updated"
@@ -355,6 +356,9 @@ func (pp *pipe) ruleSeed() {
 		if okD && len(have) < 4 {
 			r.violate("DEL-DEP", dcons, pp.at(pp.superPos), "the enclosing triangle does not depend on all four of min x, max x, min y, max y of the input")
 			okD = false
+		}
+		if okD {
+			pp.ruleFold(boxes)
 		}
 		if okD {
 			r.hold("DEL-DEP", dcons, pp.at(pp.superPos), "min and max of both coordinates are accumulated over every input point (index 0, step 1, while index < len(input), no early exit) and all four reach the enclosing triangle")
